@@ -40,6 +40,16 @@
 (*   LaxDefects = {}     methods embedded in a verification relationship   *)
 (*                       obey the same id rules as verificationMethod [F20-C09,*)
 (*                       repaired in the code: {} everywhere]              *)
+(* Design constants (TRUE = what the property needs and the code does; the *)
+(* FALSE variants exist so that TLC can show that the transaction universe *)
+(* and the reference SEE the class of defect: DidStore.hist.dev.*.cfg must   *)
+(* violate KeysChangeOnlyByAuthorized):                                    *)
+(*   ClockFirst          the versions of a DID follow the lamport clock    *)
+(*                       (event.before: clock, signing time, ref); FALSE:  *)
+(*                       the signing time, which the signer chooses, first *)
+(*   MergeKeepsDeactivation  a version that merges an open branch with a   *)
+(*                       deactivation stays deactivated; FALSE: the flag   *)
+(*                       is recomputed from the merged document            *)
 (***************************************************************************)
 EXTENDS Naturals, FiniteSets, Sequences, TLC
 
@@ -50,7 +60,7 @@ CONSTANTS
     Thumb,        \* key -> DID whose identifier is the thumbprint of the key ("" if none)
     Rank,         \* DID -> Nat: string order of the real identifiers
     Scen,         \* store mode: scenario name -> [ev |-> set of tx ids, dup |-> number of duplicate deliveries]
-    Scenarios,    \* store mode: scenario names explored
+    Scenarios,    \* scenario names explored (store mode: event sets; ambassador mode: sub-universes of TxU, {} = all of TxU)
     TxU,          \* ambassador mode: transactions that may be received
     Carriers,     \* ambassador mode: transactions that are also delivered with a defective document
     Defects,      \* defect classes of documents (all must be refused)
@@ -61,6 +71,7 @@ CONSTANTS
     MaxDepth,     \* maxControllerDepth (real: 5)
     SortedMerge, ConflictFlagAtHead, ValidatorNilSafe, TimeSeesDeactivation,
     PinIntermediate,
+    ClockFirst, MergeKeepsDeactivation,
     ExtraDup,     \* store mode: duplicate deliveries allowed on top of Scen[sc].dup
     Hist
 
@@ -98,10 +109,15 @@ NoMeta == [ver |-> 0, created |-> 0, updated |-> 0, hash |-> NoHash, prevHash |-
 (***************************************************************************)
 (* event.before: (clock, signing time, ref)                                *)
 (***************************************************************************)
-Before(e, f) ==
+ClockOrder(e, f) ==
     \/ T[e].lc < T[f].lc
     \/ T[e].lc = T[f].lc /\ T[e].sig < T[f].sig
     \/ T[e].lc = T[f].lc /\ T[e].sig = T[f].sig /\ T[e].rr < T[f].rr
+Before(e, f) ==
+    IF ClockFirst THEN ClockOrder(e, f)
+    ELSE \/ T[e].sig < T[f].sig
+         \/ T[e].sig = T[f].sig /\ T[e].lc < T[f].lc
+         \/ T[e].sig = T[f].sig /\ T[e].lc = T[f].lc /\ T[e].rr < T[f].rr
 
 RECURSIVE SortEv(_)
 SortEv(S) == IF S = {} THEN <<>>
@@ -145,7 +161,8 @@ ApplyEvent(hasCur, cur, e, sorted) ==
                                  !.deact = m0.deact \/ cur.deact]      \* once deactivated is always deactivated
                 unc == cur.src \ PrevSet(e)                            \* unconsumed source transactions
             IN IF unc = {} THEN {m1}
-               ELSE {[m1 EXCEPT !.src = {e} \cup unc, !.doc = md, !.hash = MergedHash(md)] : md \in MergedDocs(unc, doc, sorted)}
+               ELSE {[m1 EXCEPT !.src = {e} \cup unc, !.doc = md, !.hash = MergedHash(md),
+                                !.deact = IF MergeKeepsDeactivation THEN m1.deact ELSE IsDeact(md)] : md \in MergedDocs(unc, doc, sorted)}
 
 \* applyFrom: apply evs one after the other on top of cur; the set of possible version sequences
 \* PinIntermediate: only the LAST version (the one a caller observes after the call) takes the map-iteration dependent
@@ -309,18 +326,33 @@ Verdict(t, df) ==
 (***************************************************************************)
 (* Reference for C09 (declarative; evaluated on the state BEFORE the step) *)
 (***************************************************************************)
+\* The reference does not read the store (meta): the versions of a DID are DEFINED by the set of transactions accepted so far.
+\* The version "at e" consists of the transactions that precede e in the causal order as far as the lamport clock tells it
+\* (clock, then signing time, then ref: RFC 006 / event.before); its open branches are the transactions of that set no other one
+\* of the set refers to; its document is the published document of the open branch, resp. the union of the published documents
+\* of the open branches; it is deactivated as soon as the set contains a deactivation (also on a branch that is merged in).
+RefDown(d, e) == {h \in EventsOf(d, arrived) : h = e \/ ClockOrder(h, e)}
+RefHeads(d, e) == LET D == RefDown(d, e) IN {h \in D : \A f \in D : h \notin PrevSet(f)}
+RefDeact(d, e) == \E h \in RefDown(d, e) : IsDeact(DocOf(h))
+RefCapInv(d, e) == UNION {DocOf(h).capInv : h \in RefHeads(d, e)}
+RefCtrl(d, e) == UNION {Range(DocOf(h).ctrl) : h \in RefHeads(d, e)}
+RefLast(S) == CHOOSE e \in S : \A f \in S \ {e} : ClockOrder(f, e)
 RefAuthorised(t) ==
     LET x == T[t]  d == x.did  P == Range(x.prevs) IN
     IF x.kind = "create" THEN Thumb[x.key] = d
-    ELSE LET n == Len(meta[d])
-             addressed == {v \in 1..n : meta[d][v].src \cap P # {}}
-             succeeded == IF addressed # {} THEN addressed ELSE IF n > 0 THEN {n} ELSE {}
-         IN \E v \in succeeded :
-              LET V == meta[d][v].doc IN
-              \/ (V.ctrl = <<>> \/ d \in Range(V.ctrl)) /\ x.key \in V.capInv
-              \/ \E c \in Range(V.ctrl) \ {d} : \E w \in 1..Len(meta[c]) :
-                    /\ meta[c][w].src \cap P # {} \/ meta[c][w].updated <= x.sig   \* a version the signer can have known
-                    /\ ~meta[c][w].deact /\ x.key \in meta[c][w].doc.capInv
+    ELSE LET H == EventsOf(d, arrived)
+             addressed == {e \in H : RefHeads(d, e) \cap P # {}}          \* versions that have a prev as source transaction
+             succeeded == IF addressed # {} THEN addressed ELSE IF H # {} THEN {RefLast(H)} ELSE {}
+         IN \E e \in succeeded :
+              LET ctrl == RefCtrl(d, e) IN
+              \* the DID as its own controller: not once it is deactivated
+              \/ (ctrl = {} \/ d \in ctrl) /\ ~RefDeact(d, e) /\ x.key \in RefCapInv(d, e)
+              \* another controller: a version of it the transaction refers to, or the one in force at the signing time; active
+              \/ \E c \in ctrl \ {d} :
+                    LET Hc == EventsOf(c, arrived)
+                        old == {w \in Hc : T[w].sig <= x.sig}
+                        known == {w \in Hc : RefHeads(c, w) \cap P # {}} \cup (IF old # {} THEN {RefLast(old)} ELSE {})
+                    IN \E w \in known : ~RefDeact(c, w) /\ x.key \in RefCapInv(c, w)
 WellFormed(df) == df = "none"
 \* keys that may currently change the DID (latest version, its controllers' latest versions)
 AuthKeys(ms, lat, d) ==
@@ -329,8 +361,10 @@ AuthKeys(ms, lat, d) ==
          (IF V.ctrl = <<>> \/ d \in Range(V.ctrl) THEN V.capInv ELSE {})
          \cup UNION {IF lat[c] = 0 \/ ms[c][lat[c]].deact THEN {} ELSE ms[c][lat[c]].doc.capInv : c \in Range(V.ctrl) \ {d}}
 
+\* ambassador mode with Scenarios # {}: one run explores several SUB-universes of TxU (Scen[sc].ev), chosen in Init
+InPlay(t) == IF sc = "" THEN TRUE ELSE t \in Scen[sc].ev
 Receive(t, df) ==
-    /\ Mode = "ambassador" /\ t \in TxU /\ (df = "none" \/ (df \in Defects /\ t \in Carriers))
+    /\ Mode = "ambassador" /\ t \in TxU /\ InPlay(t) /\ (df = "none" \/ (df \in Defects /\ t \in Carriers))
     /\ LET v == Verdict(t, df) IN
        /\ last' = [t |-> t, df |-> df, res |-> v]
        /\ IF v = "accepted" THEN StoreAdd(t) /\ arrived' = arrived \cup {t}
@@ -340,7 +374,7 @@ Receive(t, df) ==
 
 (***************************************************************************)
 Init ==
-    /\ sc \in (IF Mode = "store" THEN Scenarios ELSE {""})
+    /\ sc \in (IF Scenarios # {} THEN Scenarios ELSE {""})
     /\ list = [d \in DIDs |-> <<>>] /\ meta = [d \in DIDs |-> <<>>] /\ latest = [d \in DIDs |-> 0]
     /\ cshelf = {} /\ cc = 0 /\ dc = 0 /\ txIndex = {} /\ arrived = {} /\ dups = 0
     /\ last = [t |-> "", df |-> "none", res |-> "none"]
